@@ -25,6 +25,10 @@
 #include <xercesc/util/XMLString.hpp>
 #include <xercesc/util/regx/RegularExpression.hpp>
 #include <xercesc/validators/common/Grammar.hpp>
+#include <unicode/ucnv.h>
+#include <dlfcn.h>
+#include <atomic>
+#include <clocale>
 #include <xercesc/framework/psvi/PSVIHandler.hpp>
 #include <xercesc/framework/psvi/PSVIElement.hpp>
 #include <xercesc/framework/psvi/PSVIAttribute.hpp>
@@ -71,6 +75,65 @@ static const char* SCHEMA =
     "<xs:simpleType name='S'><xs:restriction base='xs:string'><xs:pattern value='\\p{Lu}\\p{Ll}*'/></xs:restriction></xs:simpleType>"
     "</xs:schema>";
 static const char* DTD_TEXT = "<!ELEMENT r (a+,b?)><!ELEMENT a (#PCDATA|c)*><!ELEMENT b EMPTY><!ELEMENT c EMPTY><!ATTLIST r d CDATA 'dv'>";
+
+
+// ------------------------------------------------------------------ ICU converters made visible to ThreadSanitizer
+// The system ICU is not instrumented, so TSan cannot see what ucnv_* do to a UConverter.  The driver interposes the conversion entry points the
+// library uses: each call first writes (plain, instrumented store) to a shadow cell that belongs to the converter object, then forwards.  Two calls
+// on the same converter that are not ordered by the library's own synchronisation are then reported by TSan as a race on the cell - exactly the
+// discipline ICU demands (a UConverter must not be used by two threads at once).  Cells are never reused: a converter closed and another one opened
+// at the same address gets a fresh cell, so private converters of different threads can never collide.
+#define XV_STR2(x) #x
+#define XV_STR(x) XV_STR2(x)
+static const int ICU_SLOTS = 512; static const int ICU_CELLS = 1 << 16;
+static std::atomic<const void*> g_icuKey[ICU_SLOTS];
+static std::atomic<int> g_icuCellOf[ICU_SLOTS];
+static std::atomic<int> g_icuNext{0};
+static char g_icuCell[ICU_CELLS];
+static void icu_touch(const void* cnv) {
+    for (int i = 0; i < ICU_SLOTS; i++) {
+        const void* k = g_icuKey[i].load(std::memory_order_acquire);
+        if (k == cnv) { int c = g_icuCellOf[i].load(std::memory_order_acquire); if (c >= 0 && c < ICU_CELLS) g_icuCell[c]++; return; }
+        if (k == nullptr) {
+            int c = g_icuNext.fetch_add(1);
+            if (c >= ICU_CELLS) return;   // table exhausted: stop tracking (loses coverage, never a false report)
+            g_icuCellOf[i].store(c, std::memory_order_release);
+            const void* exp = nullptr;
+            if (g_icuKey[i].compare_exchange_strong(exp, cnv, std::memory_order_acq_rel)) { g_icuCell[c]++; return; }
+            if (exp == cnv) { int c2 = g_icuCellOf[i].load(std::memory_order_acquire); if (c2 >= 0 && c2 < ICU_CELLS) g_icuCell[c2]++; return; }
+        }
+    }
+}
+static void icu_forget(const void* cnv) {
+    for (int i = 0; i < ICU_SLOTS; i++) if (g_icuKey[i].load(std::memory_order_acquire) == cnv) { g_icuKey[i].store((const void*)1, std::memory_order_release); return; }   // tombstone: slot not reused
+}
+extern "C" {
+int32_t ucnv_fromUChars(UConverter* cnv, char* dest, int32_t destCapacity, const UChar* src, int32_t srcLength, UErrorCode* pErrorCode) {
+    static auto real = (int32_t (*)(UConverter*, char*, int32_t, const UChar*, int32_t, UErrorCode*))dlsym(RTLD_NEXT, XV_STR(ucnv_fromUChars));
+    icu_touch(cnv); return real(cnv, dest, destCapacity, src, srcLength, pErrorCode);
+}
+int32_t ucnv_toUChars(UConverter* cnv, UChar* dest, int32_t destCapacity, const char* src, int32_t srcLength, UErrorCode* pErrorCode) {
+    static auto real = (int32_t (*)(UConverter*, UChar*, int32_t, const char*, int32_t, UErrorCode*))dlsym(RTLD_NEXT, XV_STR(ucnv_toUChars));
+    icu_touch(cnv); return real(cnv, dest, destCapacity, src, srcLength, pErrorCode);
+}
+void ucnv_fromUnicode(UConverter* cnv, char** target, const char* targetLimit, const UChar** source, const UChar* sourceLimit, int32_t* offsets, UBool flush, UErrorCode* err) {
+    static auto real = (void (*)(UConverter*, char**, const char*, const UChar**, const UChar*, int32_t*, UBool, UErrorCode*))dlsym(RTLD_NEXT, XV_STR(ucnv_fromUnicode));
+    icu_touch(cnv); real(cnv, target, targetLimit, source, sourceLimit, offsets, flush, err);
+}
+void ucnv_toUnicode(UConverter* cnv, UChar** target, const UChar* targetLimit, const char** source, const char* sourceLimit, int32_t* offsets, UBool flush, UErrorCode* err) {
+    static auto real = (void (*)(UConverter*, UChar**, const UChar*, const char**, const char*, int32_t*, UBool, UErrorCode*))dlsym(RTLD_NEXT, XV_STR(ucnv_toUnicode));
+    icu_touch(cnv); real(cnv, target, targetLimit, source, sourceLimit, offsets, flush, err);
+}
+void ucnv_reset(UConverter* cnv) {
+    static auto real = (void (*)(UConverter*))dlsym(RTLD_NEXT, XV_STR(ucnv_reset));
+    icu_touch(cnv); real(cnv);
+}
+void ucnv_close(UConverter* cnv) {
+    static auto real = (void (*)(UConverter*))dlsym(RTLD_NEXT, XV_STR(ucnv_close));
+    if (cnv) { icu_touch(cnv); icu_forget(cnv); }
+    real(cnv);
+}
+}
 
 // a second grammar of the locked pool with the remaining kinds of shared schema components: identity constraints (shared selector / field XPaths),
 // a substitution group, a lax wildcard, union and list types, a derivation used through xsi:type, a fixed and a defaulted attribute
@@ -239,6 +302,21 @@ static std::string s5_b() {
     char* b = XMLString::transcode(buf); o += b; XMLString::release(&b);
     return o;
 }
+// strings that are mostly non-ASCII: in a UTF-8 locale their native form is longer than the 1.25 x guess of ICULCPTranscoder::transcode(XMLCh*),
+// so the conversion takes its retry path; each thread owns its strings, only the process-wide converter is shared
+static std::string lcp_multibyte(std::initializer_list<const char*> strs) {
+    std::string o;
+    for (const char* s : strs) {
+        XMLCh* x = XMLString::transcode(s);
+        char* b = XMLString::transcode(x);
+        o += b ? b : "(null)"; o += '|'; o += std::to_string(XMLString::stringLen(x)); o += '|';
+        char small[64]; bool ok = XMLString::transcode(x, small, 63); o += ok ? small : "(no)"; o += '|';
+        XMLString::release(&x); if (b) XMLString::release(&b);
+    }
+    return o;
+}
+static std::string s14_a() { return lcp_multibyte({"\xE6\x97\xA5\xE6\x9C\xAC\xE8\xAA\x9E\xE3\x81\xAE\xE3\x83\x86\xE3\x82\xAD\xE3\x82\xB9\xE3\x83\x88", "\xD0\x9F\xD1\x80\xD0\xB8\xD0\xB2\xD0\xB5\xD1\x82 \xD0\xBC\xD0\xB8\xD1\x80", "a\xF0\x9F\x98\x80\xF0\x9F\x98\x81\xF0\x9F\x98\x82"}); }
+static std::string s14_b() { return lcp_multibyte({"\xE4\xB8\xAD\xE6\x96\x87\xE6\x96\x87\xE6\x9C\xAC\xE6\xB5\x8B\xE8\xAF\x95", "\xCE\xB1\xCE\xB2\xCE\xB3\xCE\xB4\xCE\xB5\xCE\xB6", "\xE2\x82\xAC\xE2\x82\xAC\xE2\x82\xAC"}); }
 static std::string s6_a() { std::string o; for (int i = 0; i < 2; i++) { SAXParser p; XercesDOMParser q; o += "p"; } return o; }
 static std::string s6_b() {
     SAXParser p; CountH h; p.setDocumentHandler(&h); p.setErrorHandler(&h);
@@ -330,6 +408,7 @@ static std::vector<Scenario> SCENARIOS = {
     {"doctype-ownerless", "owner-less DOMDocumentType creation and release (shared static document)", {s3_a, s3_b}, false},
     {"dom-registry", "DOMImplementationRegistry lookup from two threads", {s4_a, s4_b}, false},
     {"lcp-transcode", "local code page transcoding in both directions", {s5_a, s5_b}, false},
+    {"lcp-transcode-multibyte", "local code page transcoding of mostly non-ASCII strings in a UTF-8 locale (retry path of the shared ICU converter)", {s14_a, s14_b}, false},
     {"parser-lifecycle", "parser construction/destruction and progressive scan tokens (scanner id)", {s6_a, s6_b}, false},
     {"message-loading", "the same and different error messages loaded from two threads", {s7_a, s7_b}, false},
     {"message-loading-validity", "well-formedness and validity messages", {s7_a, s7_c}, true},
@@ -396,6 +475,8 @@ static std::string read_range(const std::string& path, long from, long to) {
 }
 
 int main(int argc, char** argv) {
+    // a multi-byte local code page: ICU derives the default converter of XMLString::transcode from the C locale
+    if (!setlocale(LC_ALL, "C.utf8")) setlocale(LC_ALL, "C.UTF-8");
     Args a(argc, argv);
     std::string only = a.str("scenario", "");
     int maxBound = (int)a.num("bound", 2);
@@ -551,7 +632,12 @@ int main(int argc, char** argv) {
                             std::string blk = r.substr(pos, endp == std::string::npos ? std::string::npos : endp - pos);
                             pos += 10; nrep++;
                             auto fn = [&](size_t from, size_t& after) { size_t p1 = blk.find("#0 ", from); if (p1 == std::string::npos) { after = std::string::npos; return std::string(); }
-                                size_t e1 = blk.find('\n', p1); after = e1; std::string line = blk.substr(p1 + 3, e1 - p1 - 3); size_t par = line.find(" /"); if (par != std::string::npos) line = line.substr(0, par); return line; };
+                                size_t e1 = blk.find('\n', p1); after = e1; std::string line = blk.substr(p1 + 3, e1 - p1 - 3); size_t par = line.find(" /"); if (par != std::string::npos) line = line.substr(0, par);
+                                if (line.compare(0, 9, "icu_touch") == 0) {   // shadow cell of an ICU converter: name the library function that made the ICU call (frame #2)
+                                    size_t p2 = blk.find("#2 ", e1); size_t blank = blk.find("\n\n", e1);
+                                    if (p2 != std::string::npos && (blank == std::string::npos || p2 < blank)) { size_t e2 = blk.find('\n', p2); std::string l2 = blk.substr(p2 + 3, e2 - p2 - 3); size_t q = l2.find(" /"); if (q != std::string::npos) l2 = l2.substr(0, q); line = "unsynchronised use of an ICU converter in " + l2; }
+                                }
+                                return line; };
                             size_t aft = 0; std::string f1 = fn(0, aft), f2 = aft == std::string::npos ? std::string() : fn(aft, aft);
                             std::string kindLine = blk.substr(0, blk.find('\n'));
                             std::string where = f1 + " <-> " + f2;
